@@ -3,7 +3,11 @@
 Proof      : coq/Props/C11.v over Model/Schema.v + Gen/GenSchema.v (the signature's container kind and tuple
              shape, the primitive type set, type_mapping, the no-bounds type tuple are REGENERATED from the
              source on every run; _validate_schema_against_table, create_arrow_schema and the bounds keying
-             are pinned by golden AST shape).
+             are pinned by golden AST shape), and over Model/SchemaOpen.v + Gen/GenOpen.v for HANDLE PROVENANCE:
+             what create_table / load_table / Table.__init__ do when a handle is obtained (program-order actions,
+             helpers inlined, every create_arrow_schema call with the origin of its schema) is REGENERATED
+             (translator/gen_open.py, fail-closed; `_arrow_schema_cache` may be touched by no other site); the
+             theorems C11_open_* / C11_handle* hold of histories that interleave openings with appends.
 Oracles    : implementation only, judged by an independent reader (json / fastavro / pyarrow, no datashard):
                e2e      histories of appends (schema-argument variants x fresh / reused handles x batches over
                         value classes): rejected -> pointer, metadata, snapshot list, reachable files and table
@@ -25,6 +29,13 @@ Oracles    : implementation only, judged by an independent reader (json / fastav
                         copy of the handle's own schema object -- x the divergent variants x fresh / reused handles; the
                         same build modes are mixed into every random history and transaction and into `accept`
                prebuilt pre-built parquet files with divergent footers / other formats through append_files
+               handles  HANDLE PROVENANCE (harness/lib/c11_open.py): the appending handle obtained by load_table, create_table(path),
+                        create_table(path, schema=S) / Table(path, schema=S) on the EXISTING table -- S every schema-argument
+                        variant (incl. narrowed / widened types) under the table's schema_id or another, built in every build
+                        mode --, names re-bound mid-history, further handles opened and kept alive; then schema-less / identical
+                        appends, transactions and pre-built files (one carrying exactly the layout S describes) through THAT
+                        handle; a handle whose first call was a REJECTED divergent append; directed (oracle_handles) and mixed
+                        into every random history and transaction; full scans also through the handle that appended
                tx       EXPLICIT transactions that outlive a rejected call (harness/lib/c11_tx.py): begin / several
                         append_data and MULTI-FILE append_files calls, the refused file at every position, the caller
                         catching the exception / commit, failing commit, rollback or abandoned handle; a rejected call
@@ -34,10 +45,11 @@ Tie        : correspondence of every hand-written model piece with the code:
                arrow    create_arrow_schema (fresh manager) vs arrow_of
                records  validate_records_strict             vs validate_record (incl. value_fits)
                conv     pyarrow conversion of admitted values vs canon  (hypothesis conv_sound of C11_exact_partial)
-               machine  the e2e histories                   vs the append machine `run` (outcomes, snapshots,
-                        footers, bound ids and values, store listing, scan results)
-               transactions  the tx histories               vs Model/SchemaTx.v run_calls / end_tx (call tags, snapshots,
-                        library-written files on storage, every current file, scan_ok)
+               machine  the e2e + handle histories          vs the append machine with openings (SchemaEval.htrace: outcomes,
+                        snapshots, footers, bound ids and values, store listing, scan results, and the Arrow-schema CACHE of
+                        every handle involved, read off the real DataFileManager after each step)
+               transactions  the tx histories               vs Model/SchemaTx.v run_calls / end_tx with openings (thtrace: call tags,
+                        snapshots, library-written files on storage, every current file, scan_ok, handle caches)
 Findings   : (findings/C11-unchanged-tree.log, findings/C11-prebuilt-format-unchanged-tree.log, findings/C11-replays/)
                F-C11   unordered, id-less schema signature: reordered -> scans raise; renumbered -> rows mis-filtered   (fixed)
                F-C11b  pyarrow silently alters values validate_records_strict let through (1.5 -> 1, int -> timestamp,
@@ -64,13 +76,17 @@ from typing import Any, Dict, List, Optional, Tuple
 from harness.lib import coqbuild
 from harness.lib.c11_values import (POOL, TYPES, dec, dec_record, enc, enc_record, exact, f32, good_values,
                                     pyval_to_coq, same_cell)
+from harness.lib.c11_open import PLAIN_VARIANTS, gen_open, observe_cache, open_label, open_real
 from harness.lib.values import val_to_coq
 
 LEVEL = "proof"
 THEOREMS = ["C11_accept_scans", "C11_history_scans", "C11_accept_bounds", "C11_history_filter", "C11_history_bounds_exact",
             "C11_history_bounds_true", "C11_reject_no_trace", "C11_exact_partial", "C11_fits_representable",
-            "C11_arg_object_irrelevant", "C11_tx_rejected_call_no_trace", "C11_tx_fault_fails_closed", "C11_tx_publishes_accepted_only", "C11_tx_unpublished_no_trace", "C11_tx_history_scans"]
-REQ = ["DS.Model.Value", "DS.Gen.GenPrune", "DS.Model.Prune", "DS.Gen.GenSchema", "DS.Model.Schema", "DS.Model.SchemaTx", "DS.Model.SchemaEval"]
+            "C11_arg_object_irrelevant", "C11_tx_rejected_call_no_trace", "C11_tx_fault_fails_closed", "C11_tx_publishes_accepted_only", "C11_tx_unpublished_no_trace", "C11_tx_history_scans",
+            "C11_open_derives_only_persisted", "C11_open_no_trace", "C11_handle_provenance_irrelevant", "C11_handles_history_scans",
+            "C11_handles_history_filter", "C11_handles_exact_partial", "C11_handles_tx_history_scans"]
+REQ = ["DS.Model.Value", "DS.Gen.GenPrune", "DS.Model.Prune", "DS.Gen.GenSchema", "DS.Model.Schema", "DS.Model.SchemaTx",
+       "DS.Model.OpenBase", "DS.Gen.GenOpen", "DS.Model.SchemaOpen", "DS.Model.SchemaEval"]
 
 MANIFEST_ENTRY = {
     "level_text": "Coq proofs over Model/Schema.v + regenerated Gen/GenSchema.v, for every table schema with unique names "
@@ -85,7 +101,13 @@ MANIFEST_ENTRY = {
                   "other end publishes nothing, scans keep working, and calls made while storage operations fail (metadata "
                   "unreadable, marker writes failing) fail closed -- never 'no schema to enforce' (C11_tx_*); an append depends on the schema argument "
                   "object only through its schema_id and fields, never through derived attributes such as a stale "
-                  "schema_string (C11_arg_object_irrelevant); a rejected append leaves "
+                  "schema_string (C11_arg_object_irrelevant); handle provenance is irrelevant: over the REGENERATED actions of "
+                  "create_table / load_table / Table.__init__ (Gen/GenOpen.v) no opening derives an Arrow layout from its "
+                  "unvalidated schema argument (C11_open_derives_only_persisted), an opening never touches the table "
+                  "(C11_open_no_trace), and in any history interleaving openings (any opener, any schema argument, handles "
+                  "re-bound or alive side by side) with appends every outcome, the table state and all scans equal those of "
+                  "the history without the openings (C11_handle_provenance_irrelevant; C11_handles_history_scans / _filter / "
+                  "_exact_partial / _tx_history_scans spell out the consequences); a rejected append leaves "
                   "schema, snapshot list, reachable files and stored data files unchanged (C11_reject_no_trace); accepted "
                   "rows are stored as canon(type, value) with every value representable (C11_exact_partial, under "
                   "conv_sound). Model pieces tied to the code by differential execution; implementation-only end-to-end "
@@ -93,9 +115,11 @@ MANIFEST_ENTRY = {
     "level_note": "C11_exact_partial is partial: hypothesis conv_sound (pyarrow stores an ADMITTED value as canon or raises) "
                   "is validated against real pyarrow on every run, not proved. Scope: tables with a persisted schema "
                   "(legacy tables without one enforce nothing: open finding), primitive column types, append_records / "
-                  "append_data / append_files. Trusted: Coq kernel, translator/gen_schema.py, harness.",
-    "technique": "Coq proof (induction over append histories, invariant) over translator-regenerated tables + differential "
-                 "correspondence + end-to-end oracle with independent reader",
+                  "append_data / append_files; handles on a table that EXISTS (creation of an absent table is C18's). "
+                  "Trusted: Coq kernel, translator/gen_schema.py, translator/gen_open.py, harness.",
+    "technique": "Coq proof (induction over histories of openings and appends, invariant, erasure of openings) over "
+                 "translator-regenerated tables and opening skeletons + differential correspondence (incl. per-handle "
+                 "caches) + end-to-end oracle with independent reader",
     "design_ref": "DESIGN.md section 5 C11",
 }
 
@@ -287,9 +311,13 @@ def mk_fields(rng, ncols: int, p_spelled: float = 0.0) -> List[Dict[str, Any]]:
 
 
 VARIANTS = ["omitted", "identical", "identical_new_sid", "required_key_dropped", "reordered", "reordered_new_sid", "renumbered",
-            "ids_shifted", "retyped", "nullability", "extra", "missing", "renamed",
+            "ids_shifted", "retyped", "narrowed", "nullability", "extra", "missing", "renamed",
             # the same types, spelled differently (all fields / one field / back to the plain string)
             "spelled_dict", "spelled_dict_doc", "spelled_nested", "spelled_upper", "spelled_list", "spelled_empty", "spelled_one", "spelled_plain"]
+
+
+NEAR_TYPE = {"double": "float", "float": "double", "long": "int", "int": "long", "string": "uuid", "uuid": "string",
+             "binary": "fixed", "fixed": "binary"}
 
 
 def make_variant(rng, fields: List[Dict[str, Any]], name: str) -> Optional[Tuple[Optional[List[Dict[str, Any]]], int]]:
@@ -328,6 +356,15 @@ def make_variant(rng, fields: List[Dict[str, Any]], name: str) -> Optional[Tuple
     if name == "retyped":
         f = rng.choice(fs)
         f["type"] = rng.choice([t for t in TYPES if t != base_of(f["type"])])
+        return fs, rng.choice([1, 7])
+    if name == "narrowed":
+        # a type of the same family with another representation: most values still convert (double 0.1 -> float32,
+        # long -> int32 ...), so nothing downstream raises if such a layout is ever written
+        cands = [f for f in fs if isinstance(f["type"], str) and f["type"] in NEAR_TYPE]
+        if not cands:
+            return None
+        f = rng.choice(cands)
+        f["type"] = NEAR_TYPE[f["type"]]
         return fs, rng.choice([1, 7])
     if name.startswith("spelled_"):
         shape = name[len("spelled_"):]
@@ -384,7 +421,7 @@ def gen_records(rng, fields: List[Dict[str, Any]], p_bad: float) -> List[Dict[st
     return recs
 
 
-def gen_case(rng, nsteps: int, p_bad: float = 0.12) -> Dict[str, Any]:
+def gen_case(rng, nsteps: int, p_bad: float = 0.12, p_open: float = 0.35) -> Dict[str, Any]:
     fields = mk_fields(rng, rng.choice([1, 2, 2, 3]), p_spelled=0.25)
     steps = []
     for _ in range(nsteps):
@@ -400,20 +437,30 @@ def gen_case(rng, nsteps: int, p_bad: float = 0.12) -> Dict[str, Any]:
         steps.append({"handle": rng.choice(["A", "A", "B", "fresh"]), "variant": vname, "arg": arg, "sid": sid, "build": build,
                       "records": gen_records(rng, arg if arg is not None else fields, p_bad),
                       "commit_fails": rng.random() < 0.06})
+        # handle provenance: the step's handle is (re-)obtained right before the append in one of the ways a handle
+        # is obtained; now and then another handle is opened next to it and kept alive
+        if rng.random() < p_open:
+            steps[-1]["open"] = gen_open(rng, fields)
+        if rng.random() < p_open / 3:
+            steps[-1]["also_open"] = gen_open(rng, fields)
     return {"fields": fields, "steps": steps, "seed": rng.getrandbits(30)}
+
+
+def _opens_of(s: Dict[str, Any]) -> Dict[str, Any]:
+    return {k: s[k] for k in ("open", "also_open") if s.get(k)}
 
 
 def case_json(case: Dict[str, Any]) -> Dict[str, Any]:
     return {"fields": case["fields"], "seed": case.get("seed", 0),
             "steps": [{"handle": s["handle"], "variant": s["variant"], "arg": s["arg"], "sid": s["sid"], "build": s.get("build", "fresh"),
-                       "commit_fails": bool(s.get("commit_fails")),
+                       "commit_fails": bool(s.get("commit_fails")), **_opens_of(s),
                        "records": [enc_record(r) for r in s["records"]]} for s in case["steps"]]}
 
 
 def case_unjson(j: Dict[str, Any]) -> Dict[str, Any]:
     return {"fields": j["fields"], "seed": j.get("seed", 0),
             "steps": [{"handle": s["handle"], "variant": s["variant"], "arg": s["arg"], "sid": s["sid"], "build": s.get("build", "fresh"),
-                       "commit_fails": bool(s.get("commit_fails")),
+                       "commit_fails": bool(s.get("commit_fails")), **_opens_of(s),
                        "records": [dec_record(r) for r in s["records"]]} for s in j["steps"]]}
 
 
@@ -472,9 +519,23 @@ def run_case(case: Dict[str, Any], root: str, filters_per_col: int = 2) -> Dict[
     trace: List[Dict[str, Any]] = []
     supplied: List[Tuple[Dict[str, str], Dict[str, Any]]] = []   # (types by column, record) of accepted rows
     types_now = {f["name"]: declared_type(f["type"]) for f in case["fields"]}
+    alive: List[Any] = []                                        # handles opened next to the appending one, kept alive
     for si, step in enumerate(case["steps"]):
         h = step["handle"]
-        if h == "fresh":
+        ev: Dict[str, Any] = {"step": si, "variant": step["variant"], "handle": h, "build": step.get("build", "fresh")}
+        extra = None
+        if step.get("also_open"):
+            extra, why = open_real(step["also_open"], root, case["fields"], handles.get("A"))
+            alive.append(extra)
+            ev["also_open"] = open_label(step["also_open"]) + (f" raised {why}" if why else "")
+            ev["also_open_failed"] = bool(why)
+        if step.get("open"):
+            handle, why = open_real(step["open"], root, case["fields"], handles.get(h) if h != "fresh" else None)
+            ev["open"] = open_label(step["open"]) + (f" raised {why}" if why else "")
+            ev["open_failed"] = bool(why)
+            if h != "fresh":
+                handles[h] = handle                                  # the name is re-bound
+        elif h == "fresh":
             handle = load_table(root)
         else:
             if h not in handles:
@@ -482,7 +543,6 @@ def run_case(case: Dict[str, Any], root: str, filters_per_col: int = 2) -> Dict[
             handle = handles[h]
         before = observe(root)
         arg_fields = step["arg"]
-        ev: Dict[str, Any] = {"step": si, "variant": step["variant"], "handle": h, "build": step.get("build", "fresh")}
         if step.get("commit_fails"):
             def failing_commit(*a, **k):
                 raise RuntimeError("injected commit failure (before the commit point)")
@@ -502,6 +562,8 @@ def run_case(case: Dict[str, Any], root: str, filters_per_col: int = 2) -> Dict[
         ev["files"] = [{"schema": f["schema"], "lo": f["lo"], "hi": f["hi"], "nrows": len(f["rows"]), "rows": f["rows"]} for f in after["files"]]
         ev["nsnaps"] = len(after["snapshots"])
         ev["store"] = len(after["store"])
+        ev["cache"] = observe_cache(handle)
+        ev["cache_extra"] = observe_cache(extra) if extra is not None else None
         if ev["outcome"] == "rejected":
             diff = same_table_state(before, after)
             if diff:
@@ -525,6 +587,17 @@ def run_case(case: Dict[str, Any], root: str, filters_per_col: int = 2) -> Dict[
         if got is None:
             violations.append((f"scan-raises:{_last_accepted_variant(trace, ev)}", f"step {si}: full scan raises after accepted appends: {scan_err}"))
         else:
+            # "later scans" are scans through ANY handle: the one that just appended (whatever its provenance and
+            # whatever it has cached) must see what a newly loaded one sees
+            try:
+                got_h = handle.scan()
+                if not _same_rows(got_h, got):
+                    violations.append((f"scan-differs-through-handle:{_last_accepted_variant(trace, ev)}",
+                                       f"step {si}: the full scan through the handle that appended ({ev.get('open', 'default')}) returns {got_h!r:.200}, "
+                                       f"a newly loaded handle returns {got!r:.200}"))
+            except Exception as e:                   # noqa: BLE001
+                violations.append((f"scan-raises-through-handle:{_last_accepted_variant(trace, ev)}",
+                                   f"step {si}: the full scan through the handle that appended ({ev.get('open', 'default')}) raises {type(e).__name__}: {str(e)[:160]}"))
             bad = _judge_rows(supplied, got)
             if bad:
                 violations.append((f"rows-differ:{bad[0]}", f"step {si}: {bad[1]}"))
@@ -756,6 +829,19 @@ def shrink_case(case: Dict[str, Any], root: str, key: str) -> Dict[str, Any]:
         if changed:
             continue
         for i, s in enumerate(cur["steps"]):
+            for k in ("also_open", "open"):
+                if s.get(k) and budget > 0:
+                    cand = copy.deepcopy(cur)
+                    del cand["steps"][i][k]
+                    budget -= 1
+                    if fails(cand):
+                        cur, changed = cand, True
+                        break
+            if changed:
+                break
+        if changed:
+            continue
+        for i, s in enumerate(cur["steps"]):
             for j in range(len(s["records"])):
                 cand = copy.deepcopy(cur)
                 del cand["steps"][i]["records"][j]
@@ -899,6 +985,139 @@ def oracle_objects(ctx) -> None:
             what2 = next((w for k, w in again["violations"] if k == key), what)
             ctx.violation(k2, f"schema argument built by '{mode}' ({vname}, handle {hname}): {what2}", {"kind": "history", "case": case_json(small)})
     ctx.stats["objects"] = {"cases": len(jobs), "by_build_mode": outcomes}
+
+
+def oracle_handles(ctx) -> Tuple[List[Tuple[Dict[str, Any], Dict[str, Any]]], List[Tuple[Dict[str, Any], Dict[str, Any]]]]:
+    """Handle PROVENANCE, directed (harness/lib/c11_open.py; the random histories and transactions draw from the same
+    class): the appending handle is obtained by create_table(path, schema=S) / Table(path, schema=S) on the EXISTING
+    table, S every variant of the table's schema under the table's schema_id and under another one, built fresh or
+    derived from an existing object; on an empty and on a seeded table; the name re-bound or a new handle; then a
+    schema-less append and an append with the identical schema through THAT handle.  Also: such a handle merely
+    opened next to the one that appends (several handles alive in one process), and explicit transactions through
+    such a handle that append records or pre-built files -- one of them carrying exactly the layout S describes.
+    The columns have one type and disjoint value ranges; every value is exact for the declared type but not for
+    its narrower sibling, so a foreign layout cannot be written unnoticed."""
+    from harness.lib.c11_tx import gen_file, shrink_tx, tx_case_json
+    rng = ctx.rng
+    quick = ctx.tier == "quick"
+    pairs = [("long", [100, 101], [1, 2]), ("string", ["x1", "x2"], ["a1", "a2"]), ("double", [10.1, 11.3], [0.1, 1.7]),
+             ("float", [10.5, 11.5], [0.5, 1.5]), ("int", [100, 101], [1, 2])]
+    variants = PLAIN_VARIANTS + ["spelled_dict", "identical_new_sid", "reordered_new_sid"]
+    jobs: List[Tuple[Dict[str, Any], int]] = []
+    meta: List[str] = []
+
+    def table() -> Tuple[List[Dict[str, Any]], List[Any], List[Any]]:
+        ty, va, vb = rng.choice(pairs)
+        return ([{"id": 1, "name": "a", "type": ty, "required": False}, {"id": 2, "name": "b", "type": ty, "required": False}], va, vb)
+
+    def spec_for(fields: List[Dict[str, Any]], how: str, vname: str, own_sid: bool) -> Optional[Dict[str, Any]]:
+        v = make_variant(rng, fields, vname)
+        if v is None or v[0] is None:
+            return None
+        arg, sid = v
+        build = "fresh" if rng.random() < 0.7 else rng.choice(BUILD_MODES[1:])
+        if (own_sid and not vname.endswith("_new_sid")) or build in KEEPS_SID:
+            sid = 1
+        return {"how": how, "variant": vname, "arg": arg, "sid": sid, "build": build}
+
+    for how in ("create_schema", "ctor_schema"):
+        for vname in variants:
+            for own_sid in (True, False):
+                for seeded in (True, False):
+                    for hname in ("A", "fresh"):
+                        if how == "ctor_schema" and quick and not (own_sid and seeded):
+                            continue
+                        fields, va, vb = table()
+                        sp = spec_for(fields, how, vname, own_sid)
+                        if sp is None:
+                            continue
+                        steps = []
+                        if seeded:
+                            steps.append({"handle": "A", "variant": "omitted", "arg": None, "sid": 1, "build": "fresh", "records": [{"a": va[0], "b": vb[0]}]})
+                        steps.append({"handle": hname, "variant": "omitted", "arg": None, "sid": 1, "build": "fresh", "records": [{"a": va[1], "b": vb[1]}], "open": sp})
+                        if hname == "A":             # the same handle again, now with the table's schema passed explicitly
+                            steps.append({"handle": "A", "variant": "identical", "arg": copy.deepcopy(fields), "sid": 1, "build": "fresh",
+                                          "records": [{"a": va[0], "b": vb[1]}]})
+                        jobs.append(({"fields": fields, "seed": rng.getrandbits(30), "steps": steps}, 1))
+                        meta.append(f"{open_label(sp)} handle {hname}, {'seeded' if seeded else 'empty'} table")
+    for vname in variants:                           # several handles alive: the divergent one is only opened
+        fields, va, vb = table()
+        sp = spec_for(fields, "create_schema", vname, True)
+        if sp is None:
+            continue
+        jobs.append(({"fields": fields, "seed": rng.getrandbits(30), "steps": [
+            {"handle": "A", "variant": "omitted", "arg": None, "sid": 1, "build": "fresh", "records": [{"a": va[0], "b": vb[0]}]},
+            {"handle": "A", "variant": "omitted", "arg": None, "sid": 1, "build": "fresh", "records": [{"a": va[1], "b": vb[1]}], "also_open": sp},
+            {"handle": "B", "variant": "omitted", "arg": None, "sid": 1, "build": "fresh", "records": [{"a": va[1], "b": vb[0]}]}]}, 1))
+        meta.append(f"{open_label(sp)} opened next to the appending handle")
+    # per-handle state left behind by a call that RAISED: the handle's first use is an append with a divergent
+    # schema argument (under the table's schema_id, records that fit that argument), the next one is schema-less;
+    # for every provenance of the handle
+    for how in ("named", "load", "create", "create_schema"):
+        for vname in variants:
+            fields, va, vb = table()
+            v = make_variant(rng, fields, vname)
+            if v is None or v[0] is None:
+                continue
+            arg = v[0]
+            sp = None if how == "named" else ({"how": how} if how != "create_schema" else spec_for(fields, how, "identical", True))
+            names = {f["name"] for f in arg}
+            rec = {k: x for k, x in {"a": va[1], "b": vb[1]}.items() if k in names}
+            for f in arg:
+                if f["name"] not in rec:
+                    rec[f["name"]] = good_values(declared_type(f["type"]))[0] if declared_type(f["type"]) != "opaque" else "s"
+            mid = {"handle": "B", "variant": vname, "arg": arg, "sid": 1, "build": "fresh", "records": [rec]}
+            if sp is not None:
+                mid["open"] = sp
+            jobs.append(({"fields": fields, "seed": rng.getrandbits(30), "steps": [
+                {"handle": "A", "variant": "omitted", "arg": None, "sid": 1, "build": "fresh", "records": [{"a": va[0], "b": vb[0]}]},
+                mid,
+                {"handle": "B", "variant": "omitted", "arg": None, "sid": 1, "build": "fresh", "records": [{"a": va[1], "b": vb[1]}]}]}, 1))
+            meta.append(f"{open_label(sp) if sp else 'load_table (default)'}; first call through it: append with a {vname} schema argument")
+    for vname in PLAIN_VARIANTS:                     # explicit transactions through such a handle
+        for calls_kind in ("records", "files"):
+            fields, va, vb = table()
+            sp = spec_for(fields, "create_schema", vname, True)
+            if sp is None:
+                continue
+            if calls_kind == "records":
+                calls = [{"op": "records", "variant": "omitted", "arg": None, "sid": 1, "build": "fresh", "records": [{"a": va[1], "b": vb[1]}]}]
+            else:
+                lay = gen_file(rng, sp["arg"], "layout")
+                lay["layout"] = copy.deepcopy(sp["arg"])
+                calls = [{"op": "files", "files": [gen_file(rng, fields, "good")]}, {"op": "files", "files": [lay]}]
+            jobs.append(({"kind": "tx", "fields": fields, "seed": rng.getrandbits(30), "txs": [
+                {"handle": "A", "end": "commit", "calls": [{"op": "records", "variant": "omitted", "arg": None, "sid": 1, "build": "fresh", "records": [{"a": va[0], "b": vb[0]}]}]},
+                {"handle": rng.choice(["A", "fresh"]), "end": "commit", "calls": calls, "open": sp}]}, 1))
+            meta.append(f"{open_label(sp)}, transaction appending {calls_kind}")
+    seen = set()
+    runs, tx_runs = [], []
+    outcomes = {"accepted": 0, "rejected": 0}
+    for (case, _), what0, res in zip(jobs, meta, bounded_many(ctx.scratch, jobs)):
+        is_tx = case.get("kind") == "tx"
+        (tx_runs if is_tx else runs).append((case, res))
+        ctx.count(1 + len(res["trace"]), ("handles", what0, len(runs) + len(tx_runs)))
+        for ev in res["trace"]:
+            for c in (ev["calls"] if is_tx else [ev]):
+                outcomes[c["outcome"]] += 1
+        for key, what in res["violations"]:
+            k2 = f"handle:{key}"
+            if k2 in seen:
+                continue
+            seen.add(k2)
+            if is_tx:
+                slow = key.split(":")[0] in ("hang", "crash", "error")
+                small = case if slow else shrink_tx(case, lambda c: any(k == key for k, _ in bounded_case(c, os.path.join(ctx.scratch, "shrinktx"), 1)["violations"]))
+                again = bounded_case(small, os.path.join(ctx.scratch, "shrinktx"), 1)
+                what2 = next((w for k, w in again["violations"] if k == key), what)
+                ctx.violation(k2, f"handle obtained by {what0}: {what2}", {"kind": "tx-history", "case": tx_case_json(small)})
+            else:
+                small = shrink_case(case, os.path.join(ctx.scratch, "shrink"), key)
+                again = bounded_case(small, os.path.join(ctx.scratch, "shrink"))
+                what2 = next((w for k, w in again["violations"] if k == key), what)
+                ctx.violation(k2, f"handle obtained by {what0}: {what2}", {"kind": "history", "case": case_json(small)})
+    ctx.stats["handles"] = {"cases": len(jobs), "histories": len(runs), "transactions": len(tx_runs), **outcomes}
+    return runs, tx_runs
 
 
 def oracle_faults(ctx) -> List[Tuple[Dict[str, Any], Dict[str, Any]]]:
@@ -1192,6 +1411,27 @@ def ischema_coq(sid: int, fs: List[Dict[str, Any]], stale: bool = False) -> str:
     return f"{{| sid := ({sid})%Z; sfields := {fields_coq(fs)}; sstring := {1 if stale else 0}%Z |}}"
 
 
+def opener_coq(spec: Optional[Dict[str, Any]], failed: bool, table_fields: List[Dict[str, Any]]) -> str:
+    """Model/SchemaOpen.v `opener` for an opening spec (an opening that raised went on through load_table)."""
+    if not spec or failed or spec["how"] == "load":
+        return "OLoad"
+    if spec["how"] == "create":
+        return "(OCreate None)"
+    stale = spec.get("build", "fresh") != "fresh" and spec["arg"] != table_fields
+    ctor = "OCreate" if spec["how"] == "create_schema" else "OCtor"
+    return f"({ctor} (Some {ischema_coq(spec['sid'], spec['arg'], stale)}))"
+
+
+def cache_coq(cache: Optional[List[Any]], tags: Dict[str, int]) -> Optional[str]:
+    """An observed _arrow_schema_cache as a SchemaEval.real_cache term; None when it could not be read / rendered."""
+    if cache is None:
+        return None
+    try:
+        return "[" + "; ".join(f"(({int(k)})%Z, [" + "; ".join(f"({NAME_NUM[n]}%Z, {tags[ty]}%Z, {b2c(nl)})" for n, ty, nl in a) + "])" for k, a in cache) + "]"
+    except KeyError:
+        return None
+
+
 def record_coq(r: Dict[str, Any]) -> str:
     return "[" + "; ".join(f"({NAME_NUM[k]}%Z, {pyval_to_coq(v)})" for k, v in r.items()) + "]"
 
@@ -1442,6 +1682,8 @@ def classify(ev: Dict[str, Any]) -> int:
         return 3
     if msg.startswith("injected commit failure"):
         return 5
+    if ev.get("error") == "ValueError" and msg.startswith("Data file ") and "does not match the" in msg:
+        return 6                                     # the file just written failed append_files' re-check
     if "injected storage fault" in msg:
         return 7
     return 4
@@ -1452,6 +1694,7 @@ def corr_machine(ctx, runs: List[Tuple[Dict[str, Any], Dict[str, Any]]]) -> None
     tags = arrow_tags()
     exprs, kept, impl = [], [], []
     skipped = 0
+    nopens = ncaches = 0
     for case, res in runs:
         if not res["trace"] or any(k.startswith(("scan-raises", "rows-differ")) for k, _ in res["violations"]) and False:
             continue
@@ -1460,7 +1703,7 @@ def corr_machine(ctx, runs: List[Tuple[Dict[str, Any], Dict[str, Any]]]) -> None
         ptypes = {resolved_type(f["type"]) for f in case["fields"]}
         values: List[Any] = [None]
         for st in steps:
-            for f in (st["arg"] or []):
+            for f in (st["arg"] or []) + ((st.get("open") or {}).get("arg") or []) + ((st.get("also_open") or {}).get("arg") or []):
                 ptypes.add(resolved_type(f["type"]))
             for r in st["records"]:
                 for v in r.values():
@@ -1472,6 +1715,7 @@ def corr_machine(ctx, runs: List[Tuple[Dict[str, Any], Dict[str, Any]]]) -> None
                 tab.append(f"(arrow_of_type T_{t}, {pyval_to_coq(v)}, {opt_pyval_coq(real_conv(t, v))})")
         conv = "(conv_tab [" + "; ".join(tab) + "])"
         fresh_id = 10
+        extra_id = 100
         evs = []
         obs = []
         for st, ev in zip(steps, res["trace"]):
@@ -1480,6 +1724,20 @@ def corr_machine(ctx, runs: List[Tuple[Dict[str, Any], Dict[str, Any]]]) -> None
                 fresh_id += 1
             else:
                 h = {"A": 0, "B": 1}[st["handle"]]
+            # handle provenance: the openings performed right before the append, and the caches observed after it
+            opens, rcs = [], []
+            if st.get("also_open"):
+                extra_id += 1
+                opens.append(f"({extra_id}%Z, {opener_coq(st['also_open'], ev.get('also_open_failed', False), case['fields'])})")
+                rc = cache_coq(ev.get("cache_extra"), tags)
+                if rc is not None:
+                    rcs.append(f"({extra_id}%Z, {rc})")
+            if st.get("open") or st["handle"] == "fresh":
+                opens.append(f"({h}%Z, {opener_coq(st.get('open'), ev.get('open_failed', False), case['fields'])})")
+            rc = cache_coq(ev.get("cache"), tags)
+            if rc is not None:
+                rcs.append(f"({h}%Z, {rc})")
+                ncaches += 1
             stale = st.get("build", "fresh") != "fresh" and st["arg"] != case["fields"]
             arg = f"(Some {ischema_coq(st['sid'], st['arg'], stale)})" if st["arg"] is not None else "None"
             recs = "[" + "; ".join(record_coq({k: v for k, v in r.items()}) for r in st["records"]) + "]"
@@ -1490,10 +1748,11 @@ def corr_machine(ctx, runs: List[Tuple[Dict[str, Any], Dict[str, Any]]]) -> None
                 lo = "[" + "; ".join(f"(({int(k)})%Z, {val_to_coq(_decode_bound_indep(v))})" for k, v in (f["lo"] or {}).items()) + "]"
                 hi = "[" + "; ".join(f"(({int(k)})%Z, {val_to_coq(_decode_bound_indep(v))})" for k, v in (f["hi"] or {}).items()) + "]"
                 real_files.append(f"({footer}, {rows}, {lo}, {hi})")
-            evs.append(f"({{| e_handle := {h}%Z; e_arg := {arg}; e_recs := {recs}; e_commit_ok := {b2c(not st.get('commit_fails'))} |}}, "
-                       f"[{'; '.join(real_files)}])")
-            obs.append((classify(ev), ev["nsnaps"], ev["store"], len(ev["files"]), True, ev["scan"] != "raises"))
-        exprs.append(f"trace {conv} (init (Some {ischema_coq(1, case['fields'])})) [{'; '.join(evs)}]")
+            evs.append(f"([{'; '.join(opens)}], {{| e_handle := {h}%Z; e_arg := {arg}; e_recs := {recs}; e_commit_ok := {b2c(not st.get('commit_fails'))} |}}, "
+                       f"[{'; '.join(real_files)}], [{'; '.join(rcs)}])")
+            nopens += len(opens)
+            obs.append((classify(ev), ev["nsnaps"], ev["store"], len(ev["files"]), True, ev["scan"] != "raises", True))
+        exprs.append(f"htrace {conv} (init (Some {ischema_coq(1, case['fields'])})) [{'; '.join(evs)}]")
         kept.append(case)
         impl.append(obs)
     got = coqbuild.coq_eval(REQ, exprs, chunk=8)
@@ -1505,10 +1764,12 @@ def corr_machine(ctx, runs: List[Tuple[Dict[str, Any], Dict[str, Any]]]) -> None
         if g2 != i:
             k = next((n for n, (a, b) in enumerate(zip(i, g2)) if a != b), None)
             bad.append({"case": case_json(case), "first_differing_step": k,
-                        "impl (outcome, snapshots, stored files, current files, files match, scan ok)": i[k] if k is not None else i,
+                        "impl (outcome, snapshots, stored files, current files, files match, scan ok, handle caches match)": i[k] if k is not None else i,
                         "model": g2[k] if k is not None else g2})
     ctx.correspondence("machine", len(kept), bad)
     ctx.stats["machine_steps"] = nsteps
+    ctx.stats["machine_openings"] = nopens
+    ctx.stats["machine_handle_caches_compared"] = ncaches
     ctx.stats["machine_cases_not_modelled"] = skipped
 
 
@@ -1546,7 +1807,7 @@ def corr_tx(ctx, runs: List[Tuple[Dict[str, Any], Dict[str, Any]]]) -> None:
             for c in tx["calls"]:
                 if c["op"] != "records":
                     continue
-                for f in (c["arg"] or []):
+                for f in (c["arg"] or []) + ((tx.get("open") or {}).get("arg") or []) + ((tx.get("also_open") or {}).get("arg") or []):
                     ptypes.add(resolved_type(f["type"]))
                 for r in c["records"]:
                     for v in r.values():
@@ -1554,7 +1815,7 @@ def corr_tx(ctx, runs: List[Tuple[Dict[str, Any], Dict[str, Any]]]) -> None:
                             values.append(v)
         tab = [f"(arrow_of_type T_{t}, {pyval_to_coq(v)}, {opt_pyval_coq(real_conv(t, v))})" for t in sorted(ptypes) for v in values]
         conv = "(conv_tab [" + "; ".join(tab) + "])"
-        fresh_id, pid = 10, 1000
+        fresh_id, pid, extra_id = 10, 1000, 100
         evs, obs = [], []
         ok = True
         for tx, tev in zip(txs, res["trace"]):
@@ -1563,6 +1824,18 @@ def corr_tx(ctx, runs: List[Tuple[Dict[str, Any], Dict[str, Any]]]) -> None:
                 fresh_id += 1
             else:
                 h = {"A": 0, "B": 1}[tx["handle"]]
+            opens, rcs = [], []
+            if tx.get("also_open"):
+                extra_id += 1
+                opens.append(f"({extra_id}%Z, {opener_coq(tx['also_open'], tev.get('also_open_failed', False), case['fields'])})")
+                rc = cache_coq(tev.get("cache_extra"), tags)
+                if rc is not None:
+                    rcs.append(f"({extra_id}%Z, {rc})")
+            if tx.get("open") or tx["handle"] == "fresh":
+                opens.append(f"({h}%Z, {opener_coq(tx.get('open'), tev.get('open_failed', False), case['fields'])})")
+            rc = cache_coq(tev.get("cache"), tags)
+            if rc is not None:
+                rcs.append(f"({h}%Z, {rc})")
             calls, ctags = [], []
             for c, cev in zip(tx["calls"], tev["calls"]):
                 ft = fault_coq(c.get("fault"))
@@ -1607,11 +1880,11 @@ def corr_tx(ctx, runs: List[Tuple[Dict[str, Any], Dict[str, Any]]]) -> None:
                 lo = "[" + "; ".join(f"(({int(k)})%Z, {val_to_coq(_decode_bound_indep(v))})" for k, v in (f["lo"] or {}).items()) + "]"
                 hi = "[" + "; ".join(f"(({int(k)})%Z, {val_to_coq(_decode_bound_indep(v))})" for k, v in (f["hi"] or {}).items()) + "]"
                 real_files.append(f"({footer}, {rows}, {lo}, {hi})")
-            evs.append(f"({{| t_handle := {h}%Z; t_calls := [{'; '.join(calls)}]; t_end := {end} |}}, [{'; '.join(real_files)}])")
-            obs.append((ctags, tev["nsnaps"], tev["store"], len(tev["files"]), True, tev["scan"] != "raises"))
+            evs.append(f"([{'; '.join(opens)}], {{| t_handle := {h}%Z; t_calls := [{'; '.join(calls)}]; t_end := {end} |}}, [{'; '.join(real_files)}], [{'; '.join(rcs)}])")
+            obs.append((ctags, tev["nsnaps"], tev["store"], len(tev["files"]), True, tev["scan"] != "raises", True))
         if not ok:
             continue
-        exprs.append(f"tx_trace {conv} (init (Some {ischema_coq(1, case['fields'])})) [{'; '.join(evs)}]")
+        exprs.append(f"thtrace {conv} (init (Some {ischema_coq(1, case['fields'])})) [{'; '.join(evs)}]")
         kept.append(case)
         impl.append(obs)
     got = coqbuild.coq_eval(REQ, exprs, chunk=8)
@@ -1624,7 +1897,7 @@ def corr_tx(ctx, runs: List[Tuple[Dict[str, Any], Dict[str, Any]]]) -> None:
         if g2 != i:
             k = next((n for n, (a, b) in enumerate(zip(i, g2)) if a != b), None)
             bad.append({"case": tx_case_json(case), "first_differing_tx": k,
-                        "impl (call tags, snapshots, library files stored, current files, files match, scan ok)": i[k] if k is not None else i,
+                        "impl (call tags, snapshots, library files stored, current files, files match, scan ok, handle caches match)": i[k] if k is not None else i,
                         "model": g2[k] if k is not None else g2})
     ctx.correspondence("transactions", len(kept), bad)
     ctx.stats["tx_corr_transactions"] = ntx
@@ -1635,26 +1908,32 @@ def corr_tx(ctx, runs: List[Tuple[Dict[str, Any], Dict[str, Any]]]) -> None:
 def run(ctx) -> None:
     ctx.rule = ("e2e: random histories (3-6 append attempts) over 1-3 column schemas of 12 primitive types x 13 schema-argument "
                 "variants x {reused A, reused B, fresh} handles x batches drawn from a pool of value classes; a history is "
-                "distinct by (case index, step); cells: 12 types x value pool; after every step the independent reader "
+                "distinct by (case index, step); handle provenance: each step's handle may be re-obtained (load_table / "
+                "create_table / Table(...) x schema-argument variants x schema ids x build modes) and further handles opened; "
+                "cells: 12 types x value pool; after every step the independent reader "
                 "and full + filtered scans judge the property")
     ctx.trusted_base += [
         "translator/gen_schema.py (literal tables and the signature's shape from the source; other functions pinned by golden AST)",
+        "translator/gen_open.py (the actions of create_table / load_table / Table.__init__ from the source, helpers inlined; "
+        "_get_current_schema read-only, _arrow_schema_cache touched only by DataFileManager.__init__ / create_arrow_schema: checked, fail-closed)",
         "hypothesis conv_sound (C11_exact_partial): pyarrow stores an admitted value as Model/Schema.v canon or raises -- validated by the 'conv' correspondence",
         "rnd32 = IEEE binary32 round-to-nearest-even (struct.pack('f')), a parameter of canon",
         "harness: harness/props/c11.py, harness/lib/c11_values.py (independent reader, reference judgement `exact`)",
     ]
     ctx.assumptions += ["the table has a persisted, non-empty schema (create_table(path, schema)); legacy tables enforce nothing",
+                        "handles are obtained on a table that already exists (Table.__init__ initialises only when refresh() is None: pinned by gen_open.py)",
                         "field names and ids unique within a schema (enforced by Schema.__post_init__; pinned by the translator)",
                         "column types are the primitive types of Schema.__post_init__",
                         "C13: pruning by bounds stored under the looked-up id never changes a filtered scan (composed in C11_history_filter)"]
-    ctx.proofs(THEOREMS, gen_files=["GenSchema.v", "GenPrune.v"])
+    ctx.proofs(THEOREMS, gen_files=["GenSchema.v", "GenPrune.v", "GenOpen.v"])
     ctx.allow_axioms([])
     oracle_cells(ctx)
     oracle_spelling(ctx)
     oracle_objects(ctx)
     oracle_prebuilt(ctx)
-    runs = oracle_e2e(ctx)
-    tx_runs = oracle_tx(ctx)
+    h_runs, h_tx_runs = oracle_handles(ctx)
+    runs = oracle_e2e(ctx) + h_runs
+    tx_runs = oracle_tx(ctx) + h_tx_runs
     tx_runs += oracle_faults(ctx)
     guarded(ctx, "legacy-probe", {"kind": "hang", "where": "probe_legacy"}, lambda: probe_legacy(ctx), 60.0)
     # correspondence needs the model to build
